@@ -20,13 +20,31 @@ func runInto(c *core.Ctx, in *inst, plan core.WriterPlan) (*core.SimWriter, erro
 	return core.Unwrap(w), err, pi
 }
 
-func pickInst(c *core.Ctx, onlyWriters bool) *inst {
+func pickInst(c *core.Ctx, onlyWriters bool) *inst { return pickInstFor(c, onlyWriters, true) }
+
+func pickInstFor(c *core.Ctx, onlyWriters, allowSeqOnly bool) *inst {
 	for {
 		in := instMakers[c.Pick("serializer", len(instMakers))](c)
-		if !onlyWriters || in.writer {
+		if (!onlyWriters || in.writer) && (allowSeqOnly || !in.seqOnly) {
 			return in
 		}
 	}
+}
+
+// outcome of one call: the bytes and whether an error was returned. A
+// serializer may refuse an input, but then it must refuse it on every call.
+type outcome struct {
+	out    []byte
+	failed bool
+}
+
+// (what a refused call had already written to its destination before failing
+// is not output in the property's sense and is not compared)
+func (o outcome) same(p outcome) bool {
+	if o.failed || p.failed {
+		return o.failed == p.failed
+	}
+	return bytes.Equal(o.out, p.out)
 }
 
 // ---- C19: a device failure at every byte position -------------------------------------
@@ -40,7 +58,8 @@ func TestWriteFault(t *testing.T) {
 				c.CheckTotal(in.name, 0, pi, 0)
 			}
 			if err != nil {
-				c.Violation("serialize-error", in.name, "fault-free serialization failed: %v", err)
+				c.Outcome("skipped-refused-input")
+				return
 			}
 			full := ok.Accepted
 			limit := 4096
@@ -101,15 +120,15 @@ func TestWriteFault(t *testing.T) {
 
 // ---- C18: histories ------------------------------------------------------------------------
 
-func soloOutput(c *core.Ctx, in *inst) []byte {
+func soloOutput(c *core.Ctx, in *inst) outcome {
 	sw, err, pi := runInto(c, in, core.WriterPlan{FailAt: -1})
 	if pi != nil {
 		c.CheckTotal(in.name, 0, pi, 0)
 	}
 	if err != nil {
-		c.Violation("serialize-error", in.name, "fault-free serialization failed: %v", err)
+		c.Probe("serializer refuses the input (must do so on every call)")
 	}
-	return sw.Accepted
+	return outcome{sw.Accepted, err != nil}
 }
 
 func TestHistory(t *testing.T) {
@@ -117,7 +136,7 @@ func TestHistory(t *testing.T) {
 		core.Run(t, "serial/history", func(c *core.Ctx) {
 			n := c.Int("ninsts", 2, 4)
 			var insts []*inst
-			var solo [][]byte
+			var solo []outcome
 			var before []uint64
 			for i := 0; i < n; i++ {
 				in := pickInst(c, false)
@@ -155,11 +174,8 @@ func TestHistory(t *testing.T) {
 				if !c.Oracle("C18") {
 					continue
 				}
-				if err != nil {
-					c.Violation("serialize-error", cl.in.name, "call %d failed: %v", k, err)
-				}
-				if !bytes.Equal(sw.Accepted, solo[cl.ref]) {
-					c.Violation("output-depends-on-history", cl.in.name, "call %d of the history produced different bytes than the solo first call (%d vs %d bytes; first difference at %d)", k, len(sw.Accepted), len(solo[cl.ref]), firstDiff(sw.Accepted, solo[cl.ref]))
+				if got := (outcome{sw.Accepted, err != nil}); !got.same(solo[cl.ref]) {
+					c.Violation("output-depends-on-history", cl.in.name, "call %d of the history: error=%v, %d bytes; solo first call: error=%v, %d bytes; first difference at %d (%v)", k, got.failed, len(got.out), solo[cl.ref].failed, len(solo[cl.ref].out), firstDiff(got.out, solo[cl.ref].out), err)
 				}
 			}
 			if c.Oracle("C18") {
@@ -211,10 +227,10 @@ func TestInterleave(t *testing.T) {
 		core.Run(t, "serial/interleave", func(c *core.Ctx) {
 			ninst := c.Int("ninsts", 1, 4)
 			var insts []*inst
-			var solo [][]byte
+			var solo []outcome
 			var before []uint64
 			for i := 0; i < ninst; i++ {
-				in := pickInst(c, false)
+				in := pickInstFor(c, false, false)
 				insts = append(insts, in)
 				solo = append(solo, soloOutput(c, in))
 				if in.sharedHash != nil {
@@ -284,11 +300,8 @@ func TestInterleave(t *testing.T) {
 					if tk.panicV != nil {
 						c.Violation("panic", tk.in.name, "task %d panicked: %v", i, tk.panicV)
 					}
-					if tk.err != nil {
-						c.Violation("serialize-error", tk.in.name, "task %d failed: %v", i, tk.err)
-					}
-					if !bytes.Equal(tk.out, solo[ref[i]]) {
-						c.Violation("output-depends-on-schedule", tk.in.name, "task %d produced different bytes than its solo run under schedule %s (first difference at %d)", i, schedule, firstDiff(tk.out, solo[ref[i]]))
+					if got := (outcome{tk.out, tk.err != nil}); !got.same(solo[ref[i]]) {
+						c.Violation("output-depends-on-schedule", tk.in.name, "task %d: error=%v, %d bytes; solo run: error=%v, %d bytes, under schedule %s (first difference at %d)", i, got.failed, len(got.out), solo[ref[i]].failed, len(solo[ref[i]].out), schedule, firstDiff(tk.out, solo[ref[i]].out))
 					}
 				}
 				for i, in := range insts {
@@ -316,10 +329,10 @@ func TestParallelRace(t *testing.T) {
 		core.Run(t, "serial/parallel-race", func(c *core.Ctx) {
 			ninst := c.Int("ninsts", 1, 3)
 			var insts []*inst
-			var solo [][]byte
+			var solo []outcome
 			var before []uint64
 			for i := 0; i < ninst; i++ {
-				in := pickInst(c, false)
+				in := pickInstFor(c, false, false)
 				insts = append(insts, in)
 				solo = append(solo, soloOutput(c, in))
 				if in.sharedHash != nil {
@@ -375,11 +388,8 @@ func TestParallelRace(t *testing.T) {
 						if x.pan != nil {
 							c.Violation("panic", name, "task %d panicked: %v", i, x.pan)
 						}
-						if x.err != nil {
-							c.Violation("serialize-error", name, "task %d failed: %v", i, x.err)
-						}
-						if !bytes.Equal(x.out, solo[ref[i]]) {
-							c.Violation("output-depends-on-schedule", name, "task %d rep %d produced different bytes than its solo run when run in parallel (first difference at %d)", i, r, firstDiff(x.out, solo[ref[i]]))
+						if got := (outcome{x.out, x.err != nil}); !got.same(solo[ref[i]]) {
+							c.Violation("output-depends-on-schedule", name, "task %d rep %d: error=%v, %d bytes; solo run: error=%v, %d bytes when run in parallel (first difference at %d)", i, r, got.failed, len(got.out), solo[ref[i]].failed, len(solo[ref[i]].out), firstDiff(x.out, solo[ref[i]].out))
 						}
 					}
 				}
